@@ -272,8 +272,14 @@ func c04Deviate(idx int, rng *rand.Rand, kind string) *Result {
 
 // c04Overlap: several sessions with different garbler inputs overlap on ONE shared *circuit.Circuit; the union of the
 // transcripts is scanned with every session's R.
-func c04Overlap(idx int, rng *rand.Rand) *Result {
+func c04Overlap(idx int, rng *rand.Rand, sequential ...bool) *Result {
 	res := &Result{Case: idx, Class: "overlap", Nontrivial: true}
+	seq := len(sequential) > 0 && sequential[0]
+	if seq {
+		// the sessions run one after another on the one circuit value: whatever a finished session leaves behind
+		// (pooled buffers, cached material) is what the next session starts from
+		res.Class = "consecutive-sessions"
+	}
 	// sync.Pool caches per P: with one P a buffer returned by one session is the next one handed out
 	if (idx/2)%2 == 1 || !thorough() {
 		old := runtime.GOMAXPROCS(1)
@@ -304,6 +310,11 @@ func c04Overlap(idx int, rng *rand.Rand) *Result {
 		y := big.NewInt(int64(rng.Intn(256)))
 		o := sessOpts{ot: []string{"co", "cot"}[j%2], record: true, randSeed: uint64(seed())<<32 + uint64(idx)*100 + uint64(j) + 31, corruptAt: -1,
 			capacity: 4096}
+		if seq {
+			srs[j] = runWhole(circ, x, y, o)
+			done <- j
+			continue
+		}
 		go func() {
 			srs[j] = runWhole(circ, x, y, o)
 			done <- j
@@ -318,6 +329,17 @@ func c04Overlap(idx int, rng *rand.Rand) *Result {
 		union = append(union, make([]byte, 16)...)
 	}
 	for j, sr := range srs {
+		// R as the garbler drew it: the first label after the 32-byte key in its randomness (cross-checked by regarble)
+		if len(sr.gRand) >= 48 {
+			var d ot.LabelData
+			copy(d[:], sr.gRand[32:48])
+			var r0 ot.Label
+			r0.SetData(&d)
+			r0.SetS(true)
+			if p0, _, _ := scanTranscript(union, r0); len(p0) > 0 {
+				res.viol("pair:overlapping-sessions", "sessions on one shared circuit value (%s): the transcripts together contain two values differing by the offset session %d drew (offset %d)", res.Class, j, p0[0])
+			}
+		}
 		g, _, err := regarble(circ, sr.gRand)
 		if err != nil {
 			continue
@@ -632,6 +654,8 @@ func c04Main(args []string) error {
 		out.put(c04Deviate(idx, rng, kinds[i%3]))
 		idx++
 		out.put(c04Overlap(idx, rng))
+		idx++
+		out.put(c04Overlap(idx, rng, true))
 		idx++
 	}
 	ns := 1
